@@ -2,6 +2,7 @@ import GdslModel.Lemmas.Bfs
 import GdslModel.Lemmas.Dfs
 import GdslModel.Lemmas.Pfs
 import GdslModel.Lemmas.Extra
+import GdslModel.Lemmas.PathView
 /-!
 # C09 — search_cycle returns a genuine cycle through the root iff one exists
 `A = accAdj adj acc`. With `adj = outAdj s` these are the directed statements, with
@@ -38,6 +39,17 @@ theorem Cycle.sound (adj : K → List (K × E)) (acc : K → K → E → Bool) (
     have : t = root := by simp [goal] at hg; exact hg.symm
     subst this
     exact hp
+
+/-- what the accessors of the returned `Path` hand out: `first_node()` is the root, `last_node()` again the root,
+    `first_edge()` leaves the root, `last_edge()` enters again the root, `to_vec_nodes()` / `iter_nodes()` is the root
+    followed by again the root of every edge, `len()` = number of edges + 1 -/
+theorem Cycle.accessors (adj : K → List (K × E)) (acc : K → K → E → Bool) (nval : K → Int) (kind : Kind)
+    (root : K) (target : Option K) (fuel : Nat) (p : List (Edge K E)) (run : Run K E)
+    (h : searchPath adj acc nval kind root target true fuel = some (some p, run)) :
+    pathFirstNode p = some root ∧ pathLastNode p = some root ∧
+    (∃ x, pathFirstEdge p = some x ∧ x.1 = root) ∧ (∃ y, pathLastEdge p = some y ∧ y.2.1 = root) ∧
+    pathNodes p = root :: p.map (·.2.1) ∧ (pathNodes p).length = p.length + 1 :=
+  (Cycle.sound adj acc nval kind root target fuel p run h).accessors
 
 /-- `None` only if no path of one or more accepted edges leads from the root back to the root -/
 theorem Cycle.complete (adj : K → List (K × E)) (acc : K → K → E → Bool) (nval : K → Int) (kind : Kind)
